@@ -73,8 +73,10 @@ CliToWire == /\ replyQ # <<>> /\ wireUp' = Append(wireUp, Head(replyQ)) /\ reply
 \* server: write the reply to the user address it is tagged with
 SrvDeliver == /\ wireUp # <<>> /\ ugot' = ugot \cup {<<Head(wireUp)[1], Head(wireUp)[3]>>} /\ wireUp' = Tail(wireUp)
               /\ UNCHANGED <<sent, sendQ, wireDown, sockOf, owner, nsock, bgot, breplied, replyQ, lastUser, gen>>
-\* a socket idle for 30 s is closed and forgotten
-SockExpire(u) == /\ sockOf[u] # 0 /\ sockOf' = [sockOf EXCEPT ![u] = 0]
+\* a socket idle for 30 s is closed and forgotten; idle means that nothing was read from the backend on it for that
+\* long (the deadline is re-armed before every read), so a socket whose replies are still on their way is not idle
+SockExpire(u) == /\ sockOf[u] # 0 /\ ~(\E i \in DOMAIN replyQ : replyQ[i][2] = sockOf[u])
+                 /\ sockOf' = [sockOf EXCEPT ![u] = 0]
                  /\ UNCHANGED <<sent, sendQ, wireDown, owner, nsock, bgot, breplied, replyQ, wireUp, ugot, lastUser, gen>>
 \* the work connection fails and is replaced: what was inside it is lost, the queues and sockets survive on the server;
 \* the client starts over with empty queues and no sockets (InWorkConn closes the old state)
